@@ -965,3 +965,115 @@ func TestVerifReplay(t *testing.T) {
 }
 ''' % {'name': name, 'v1': v1, 'v2': v2}
         return 'variants', src
+
+
+TOKENIZER_TEST = '''package csv_test
+
+import (
+	"strings"
+	"testing"
+
+	ctok "github.com/pip-services3-gox/pip-services3-expressions-gox/calculator/tokenizers"
+	"github.com/pip-services3-gox/pip-services3-expressions-gox/csv"
+	"github.com/pip-services3-gox/pip-services3-expressions-gox/io"
+	mtok "github.com/pip-services3-gox/pip-services3-expressions-gox/mustache/tokenizers"
+	"github.com/pip-services3-gox/pip-services3-expressions-gox/tokenizers"
+	"github.com/pip-services3-gox/pip-services3-expressions-gox/tokenizers/generic"
+)
+
+// C04 / C12 on whole inputs: with no option enabled the token values concatenate to the input, every token
+// but the final end-of-input marker is non-empty, and every token reports the line/column of its first
+// character as a fresh forward scan counts them. Inputs: the counterexample content (if any) and every
+// string up to length %(maxlen)d over an alphabet that reaches every tokenizer state.
+func vcheck(t *testing.T, name string, tk tokenizers.ITokenizer, input string) bool {
+	ok := true
+	func() {
+		defer func() {
+			if r := recover(); r != nil { t.Errorf("%%s tokenizer on %%q: panic: %%v", name, input, r); ok = false }
+		}()
+		tk.SetSkipUnknown(false); tk.SetSkipWhitespaces(false); tk.SetSkipComments(false); tk.SetSkipEof(false)
+		tk.SetMergeWhitespaces(false); tk.SetUnifyNumbers(false); tk.SetDecodeStrings(false)
+		toks := tk.TokenizeBuffer(input)
+		var sb strings.Builder
+		pos := 0
+		runes := []rune(input)
+		ref := io.NewStringScanner(input)
+		refpos := 0
+		for i, tok := range toks {
+			if tok.Type() == tokenizers.Eof {
+				if i != len(toks)-1 { t.Errorf("%%s on %%q: end-of-input token in the middle", name, input); ok = false }
+				continue
+			}
+			if tok.Value() == "" { t.Errorf("%%s on %%q: empty token #%%d", name, input, i); ok = false; return }
+			// position of the first character in a forward scan
+			for refpos < pos { ref.Read(); refpos++ }
+			wl, wc := ref.PeekLine(), ref.PeekColumn()
+			if tok.Line() != wl || tok.Column() != wc { t.Errorf("%%s on %%q: token %%q reports (%%d,%%d), its first character is at (%%d,%%d)", name, input, tok.Value(), tok.Line(), tok.Column(), wl, wc); ok = false; return }
+			sb.WriteString(tok.Value())
+			pos += len([]rune(tok.Value()))
+		}
+		if sb.String() != string(runes) { t.Errorf("%%s on %%q: token values concatenate to %%q", name, input, sb.String()); ok = false }
+	}()
+	return ok
+}
+
+func TestVerifReplay(t *testing.T) {
+	mk := map[string]func() tokenizers.ITokenizer{
+		"generic": func() tokenizers.ITokenizer { return generic.NewGenericTokenizer() },
+		"expression": func() tokenizers.ITokenizer { return ctok.NewExpressionTokenizer() },
+		"csv": func() tokenizers.ITokenizer { return csv.NewCsvTokenizer() },
+		"mustache": func() tokenizers.ITokenizer { return mtok.NewMustacheTokenizer() },
+	}
+	alphabet := []rune{'a', '1', '-', '.', '/', '*', ' ', '"', '\\'', '\\n', '<', '=', '>', '{', '}', 'e', 0xe9}
+	var inputs []string
+	%(extra)s
+	var gen func(cur []rune, n int)
+	gen = func(cur []rune, n int) {
+		inputs = append(inputs, string(cur))
+		if n == 0 { return }
+		for _, ch := range alphabet { gen(append(cur, ch), n-1) }
+	}
+	gen(nil, %(maxlen)d)
+	bad := 0
+	for _, in := range inputs {
+		for name, f := range mk {
+			if !vcheck(t, name, f(), in) { bad++ }
+			if bad > 5 { t.Fatalf("stopping after %%d failing inputs", bad) }
+		}
+	}
+}
+'''
+
+
+@family(r'/tokenizers/generic\.|/calculator/tokenizers\.|/csv\.|/mustache/tokenizers\.|/tokenizers\.AbstractTokenizer')
+class TokenizerFamily(Family):
+    MAXN = 6
+
+    def inputs(self):
+        d = {}
+        ps = {p['n'] for p in self.func.params}
+        if 'scanner' in ps:
+            d['n'] = 'len(sc(scanner).content)'
+            for i in range(self.MAXN):
+                d['r%d' % i] = 'sc(scanner).content[%d]' % i
+        return d
+
+    def bounds(self):
+        if 'scanner' in {p['n'] for p in self.func.params}:
+            return ['len(sc(scanner).content) <= %d' % self.MAXN]
+        return []
+
+    @classmethod
+    def source(cls, extra, maxlen=3):
+        return TOKENIZER_TEST % {'extra': extra, 'maxlen': maxlen}
+
+    def test_source(self, vals):
+        n = vals.get('n', 0)
+        extra = ''
+        if isinstance(n, int) and 0 < n <= self.MAXN:
+            extra = 'inputs = append(inputs, string(%s))' % go_runes(vals, 'r', n)
+        return 'csv', self.source(extra)
+
+    @classmethod
+    def bounded_source(cls, prog, fname):
+        return 'csv', cls.source('', 4), 'every input up to length 4 over a 17-character alphabet (letters, digit, sign, dot, slash, star, blank, quotes, LF, <=>, braces, e, e-acute) x the four built-in tokenizers, no options'
